@@ -468,6 +468,128 @@ def replay(mm, name, c):
     return None
 
 
+def main_sources_job(args):
+    """The command-line layer: the real main() on an argument list with two sources, one named as (k,t) and one by absolute number, in
+    either order (k, t, a arbitrary integers as option text).  Whenever the model is accepted, each source sits on the pulse the
+    user named, read from the printed geometry table; both orders of the two options give the same two pulses."""
+    order, qt = args
+    import io, contextlib
+    sh = symx.load()
+    M = sh.mininec
+    mm = symx.real_mininec()
+    res = dict(obls=[], paths=0, solver_s=0.0, queries=0, functions=[], violations=[], truncated=False)
+    W = ['-w', '2,4,0.13,0.21,1.07,1.31,0.42,1.93,0.002', '-w', '1,3,1.31,0.42,1.93,0.37,1.56,2.71,0.003']
+    jname = 'main-sources-%s' % order
+
+    def argv_of(kt, a):
+        o = ['--excitation-pulse=%s,%s' % kt, '--excitation-pulse=%s' % a]
+        if order == 'abs-first':
+            o.reverse()
+        return ['-f', '29.98'] + W + o + ['--excitation-voltage=1+0j', '--excitation-voltage=0.5+0.5j']
+
+    def fn():
+        c = symx.ctx()
+        k, t, a = SI.var('k'), SI.var('t'), SI.var('a')
+        for v in (k, t, a):
+            c.assume(z3.And(v.t >= -1, v.t <= 9))
+        old = (M.format_float, sh.pulse.format_float)
+        M.format_float = sh.pulse.format_float = tokens.format_float_stub
+        out, err = io.StringIO(), io.StringIO()
+        try:
+            with symx.object_arrays(), contextlib.redirect_stdout(out), contextlib.redirect_stderr(err):
+                m = M.main(argv_of((tokens.exact(k), tokens.exact(t)), tokens.exact(a)), f_err=err, return_mininec=True)
+                if hasattr(m, 'pulses'):
+                    blocks = parse_geometry(m.wires_as_mininec())
+                    return dict(k=k, t=t, a=a, idx=[s_.idx for s_ in m.sources], blocks=blocks, N=len(m.pulses))
+        except SystemExit:
+            pass
+        finally:
+            M.format_float, sh.pulse.format_float = old
+        return dict(k=k, t=t, a=a, idx=None)
+
+    with symx.shadow.trace_functions(sh):
+        paths = symx.explore(fn, query_timeout_ms=qt, max_paths=400)
+    res['functions'] = sorted(sh.entered)
+    res['paths'], res['solver_s'], res['queries'], res['truncated'] = len(paths), paths.solver_s, paths.queries, paths.truncated
+    for pi, p in enumerate(paths):
+        if p.exc is not None:
+            raise symx.HarnessError('%s path %d: %r' % (jname, pi, p.exc)) from p.exc
+        o = p.value
+        if o['idx'] is None:
+            continue                                  # refused: fail-safety of refusals is C20
+        k, t, a = o['k'], o['t'], o['a']
+        i_kt, i_a = (o['idx'][0], o['idx'][1]) if order == 'kt-first' else (o['idx'][1], o['idx'][0])
+        alts = []
+        for tg, rows in o['blocks']:
+            for r_, n_ in enumerate(rows):
+                if n_ == i_kt + 1:
+                    alts.append(z3.And((t == tg).t, (k == r_ + 1).t))
+        goals = [('the source named as (k,t) sits on row k of block t', z3.Or(*alts) if alts else z3.BoolVal(False)),
+                 ('the source named by the absolute number a sits on the pulse printed with a', (a == i_a + 1).t)]
+        for gname, goal in goals:
+            sv = z3.Solver()
+            sv.set('timeout', qt)
+            sv.add(p.pc + p.axioms)
+            sv.add(z3.Not(goal))
+            t0 = time.time()
+            r = str(sv.check())
+            res['solver_s'] += time.time() - t0
+            res['queries'] += 1
+            on = '%s/path%d/%s' % (jname, pi, gname)
+            if r == 'unsat':
+                res['obls'].append((on, 'discharged', None))
+            elif r == 'unknown':
+                res['obls'].append((on, 'inconclusive', None))
+            else:
+                mdl = sv.model()
+                kc, tc, ac = (int(core.model_value(mdl, x)) for x in (k, t, a))
+                v = replay_main_sources(mm, argv_of((kc, tc), ac), order, kc, tc, ac)
+                if v:
+                    res['violations'].append(v)
+                    res['obls'].append((on, 'violation', v[1]))
+                else:
+                    res['obls'].append((on, 'spurious', dict(k=kc, t=tc, a=ac)))
+    return res
+
+
+def replay_main_sources(mm, argv, order, k, t, a):
+    import io, contextlib
+    out, err = io.StringIO(), io.StringIO()
+    try:
+        with contextlib.redirect_stdout(out), contextlib.redirect_stderr(err):
+            m = mm.main(list(argv), f_err=err, return_mininec=True)
+    except SystemExit:
+        return None
+    if not hasattr(m, 'pulses'):
+        return None
+    blocks = []
+    on = False
+    for ln in m.wires_as_mininec().split('\n'):
+        if 'ANTENNA GEOMETRY' in ln:
+            on = True
+            continue
+        if not on:
+            continue
+        mt = HDR.match(ln)
+        if mt:
+            blocks.append((int(mt.group(2)), []))
+            continue
+        if not ln.strip() or ln.startswith('X '):
+            continue
+        f = ln.split()
+        if f[0] != '-':
+            blocks[-1][1].append(int(f[-1]))
+    bt = dict(blocks)
+    idx = [s_.idx + 1 for s_ in m.sources]
+    got_kt, got_a = (idx[0], idx[1]) if order == 'kt-first' else (idx[1], idx[0])
+    want_kt = bt[t][k - 1] if t in bt and 1 <= k <= len(bt[t]) else None
+    if got_kt != want_kt or got_a != a:
+        return ('C17:command-line:two-sources:%s' % order, 'main %s: the sources act on pulses %s (per-object form) and %s (absolute form); the geometry table '
+                'names pulse %s as pulse %d of object %d and the absolute number given is %d' % (' '.join(argv[6:8]), got_kt, got_a, want_kt, k, t, a),
+                dict(kind='main-sources', argv=list(argv)))
+    return None
+
+
 def main(args):
     ck = Check('C17', args)
     ck.shadow_stats = symx.load().stats
@@ -482,7 +604,7 @@ def main(args):
         for mk in masks:
             jobs.append((name, mk, qt))
     with mp.Pool(min(16, os.cpu_count() or 1)) as pool:
-        results = pool.map(job, jobs, chunksize=1)
+        results = pool.map(job, jobs, chunksize=1) + pool.map(main_sources_job, [('kt-first', qt), ('abs-first', qt)], chunksize=1)
     funcs = set()
     for r in results:
         funcs.update(r['functions'])
@@ -506,7 +628,7 @@ def main(args):
                        'grounded ends, single-segment wires); tags and addresses are arbitrary integers in range',
                        'format_float replaced by the exact token formatter']
     ck.stubs += ['util.format_float -> exact token formatter']
-    ck.outside += ['models other than the listed ones', 'the command-line layer of addressing (C15/C20 run main)']
+    ck.outside += ['models other than the listed ones', 'command lines other than the two-source template (C15/C20 run main on theirs)']
     return ck.finish('Real compute_tags/register_source/register_load/report writers on symbolic integer tags and addresses; '
                      'every path (tag order, validity class, addressed row) gets its assertions decided by z3 in linear integer '
                      'arithmetic against the printed geometry table.')
